@@ -2,6 +2,7 @@ import MosnVerif.Lemmas.Subset
 import MosnVerif.Lemmas.SubsetRequest
 import MosnVerif.Lemmas.SubsetSlice
 import MosnVerif.Lemmas.SubsetKeys
+import MosnVerif.Lemmas.CriteriaFlow
 /-!
 # C15 — subset load balancing honours metadata and its fallback policy (property theorems only)
 
@@ -621,6 +622,83 @@ example :
     (requestTargets zoneHosts [["zone"]] 1 [] (some [("zone", "a")]) none).map (·.name) = ["h0"] ∧
     proxyChoose rrChoose (lbF zoneHosts [["zone"]] 0 []) (some [("version", "v2"), ("zone", "a")]) 0 0 = none ∧
     (requestTargets zoneHosts [["zone"]] 0 [] (some [("zone", "a")]) none).map (·.name) = ["h0"] := by decide
+
+/-! ## one request, several host selections: the criteria are recomputed at EVERY selection
+
+`Model/CriteriaFlow.lean`: a request is a list of steps — a filter stores / edits / unsets the request-level variable, the
+route entry is replaced, `select` (= `chooseHost` after a re-choose-host, `doRetry`). `runGen` runs them with the regenerated
+facts: `Gen.CriteriaFlow.memoized` (does `downStream.MetadataMatchCriteria` keep a result across calls), and
+`Gen.SubsetRequest.varCopiedBeforeMerge` (the route's pairs go into a copy of the variable's map). Every element of
+`runGen s steps` is (the state current at that selection, the criteria handed to the balancer). -/
+section EverySelection
+open MosnVerif.Model.CriteriaFlow
+
+/-- **criteria_flow_discipline**: `MetadataMatchCriteria` reads only the stream context (the variable), the request info (the
+route entry) and the current cluster, writes no field of the stream (nothing is kept across calls), merges into a copy of
+the variable's map; hosts are selected by `chooseHost` and `doRetry`, both with the stream itself as balancer context, which
+`initializeUpstreamConnectionPool` hands on to the cluster manager. -/
+theorem criteria_flow_discipline :
+    Gen.CriteriaFlow.memoized = false ∧ Gen.SubsetRequest.varCopiedBeforeMerge = true ∧
+    Gen.CriteriaFlow.reads = [.cluster, .context, .requestInfo] ∧
+    Gen.CriteriaFlow.selectionSites = [("chooseHost", "s"), ("doRetry", "s")] ∧ Gen.CriteriaFlow.contextPassedOn = true := by
+  decide
+
+/-- **criteria_fresh_every_selection**: for EVERY start state and EVERY sequence of steps, selection number `k` uses exactly
+`merge(route entry current at k, variable current at k)` — never the result of an earlier selection — and a selection
+leaves the variable and the route's object as they were. -/
+theorem criteria_fresh_every_selection (s : S) (steps : List Step) :
+    (∀ x ∈ runGen s steps, x.2 = (assemble x.1.route x.1.var).used) ∧
+    (∀ t : S, ((select Gen.CriteriaFlow.memoized Gen.SubsetRequest.varCopiedBeforeMerge t).2.var,
+               (select Gen.CriteriaFlow.memoized Gen.SubsetRequest.varCopiedBeforeMerge t).2.route) = (t.var, t.route)) := by
+  have hm : Gen.CriteriaFlow.memoized = false := criteria_flow_discipline.1
+  have hc : Gen.SubsetRequest.varCopiedBeforeMerge = true := criteria_flow_discipline.2.1
+  unfold runGen
+  rw [hm, hc]
+  exact ⟨run_fresh true steps s, select_keeps⟩
+
+/-- **request_exact_every_selection**: composition with `request_path_exact` (hence `choose_exact` / `fallback_exact`): at
+every selection of every step sequence, when the current route entry is configured with the map `rc` and the variable
+holds `vm` (unique keys), the host the cluster manager hands back is among `requestTargets … rc vm` — the reference targets
+of exactly the pairs current at THAT selection — and a host is found whenever that set is non-empty. -/
+theorem request_exact_every_selection (inner : Inner) (hin : InnerOK inner) (hosts : List Host) (raw : List (List Key))
+    (policy : Nat) (dflt : Path) (grow : Grow) (shuf : List Val → List Val) (hshuf : ∀ l v, v ∈ shuf l ↔ v ∈ l)
+    (s : S) (steps : List Step) (d1 d2 : Nat) :
+    ∀ x ∈ runGen s steps, ∀ (rc : Option Meta), x.1.route = rc.map mkCriteria →
+      (∀ r, rc = some r → (r.map (·.1)).Nodup) → (∀ m, x.1.var = some m → (m.map (·.1)).Nodup) →
+      ∀ lb, (lb = lbF hosts raw policy dflt ∨ lb = lbPS grow shuf hosts raw policy dflt) →
+        (∀ h, proxyChoose inner lb x.2 d1 d2 = some h → h ∈ requestTargets hosts raw policy dflt rc x.1.var) ∧
+        (requestTargets hosts raw policy dflt rc x.1.var ≠ [] → ∃ h, proxyChoose inner lb x.2 d1 d2 = some h) := by
+  intro x hx rc hroute hrc hvar lb hlb
+  have hu := (criteria_fresh_every_selection s steps).1 x hx
+  obtain ⟨res, hres, _, h1, h2⟩ := request_path_exact inner hin hosts raw policy dflt grow shuf hshuf rc hrc [x.1.var]
+    (by intro m hm; simp only [List.mem_singleton] at hm; exact hvar m hm.symm) 0 (by simp) d1 d2 lb hlb
+  simp only [runSeq, List.getElem?_cons_zero, Option.some.injEq] at hres
+  subst hres
+  rw [hu, hroute]
+  exact ⟨h1, h2⟩
+
+-- non-vacuity: the request carries zone=a, is sent to h0; a filter stores zone=b before the retry: the retry is looked up
+-- with zone=b. Route zone=a with version=v1 in the variable, then the route entry is replaced by one with zone=b.
+example : (runGen { var := some [("zone", "a")], route := none } [.select, .store (some [("zone", "b")]), .select]).map (·.2) =
+    [some [("zone", "a")], some [("zone", "b")]] := by decide
+example : (runGen { var := some [("version", "v1")], route := routeObject [("zone", "a")] }
+    [.select, .route (routeObject [("zone", "b")]), .select]).map (·.2) =
+    [some [("version", "v1"), ("zone", "a")], some [("version", "v1"), ("zone", "b")]] := by decide
+
+/-- **stale_criteria_witness** (negative witnesses, machine-checked): (1) a per-stream cache of the merged criteria makes the
+second selection use the FIRST selection's pairs: the request now carries zone=b and is looked up with zone=a — `h0`, which
+is not among the targets of zone=b; (2) merging in place (no copy) leaves the old route's zone=a in the variable's map, and
+it wins over the new route entry's zone=b. -/
+theorem stale_criteria_witness :
+    (run true true { var := some [("zone", "a")], route := none } [.select, .store (some [("zone", "b")]), .select]).map (·.2) =
+      [some [("zone", "a")], some [("zone", "a")]] ∧
+    (proxyChoose rrChoose (lbF zoneHosts [["zone"]] 1 []) (some [("zone", "a")]) 0 0).map (·.name) = some "h0" ∧
+    (requestTargets zoneHosts [["zone"]] 1 [] none (some [("zone", "b")])).map (·.name) = ["h1", "h2"] ∧
+    (run false false { var := some [("version", "v1")], route := routeObject [("zone", "a")] }
+      [.select, .route (routeObject [("zone", "b")]), .select]).map (·.2) =
+      [some [("version", "v1"), ("zone", "a")], some [("version", "v1"), ("zone", "a")]] := by decide
+
+end EverySelection
 
 /-! ### selector keys: `GenerateSubsetKeys` as regenerated (`Gen.SubsetKeys`) -/
 
